@@ -1774,7 +1774,7 @@ func ruleBatchValidatedBeforeStored(r *Run) {
 					}
 					wraps := false
 					for d := range dataDeps(call) {
-						if d != ssa.Value(call) && isErrorType(d.Type()) {
+						if d != ssa.Value(call) && d.Type() != nil && isErrorType(d.Type()) {
 							wraps = true
 						}
 					}
@@ -2273,4 +2273,135 @@ func ruleAddReportedOnlyWhenAdded(r *Run) {
 		}
 	}
 	r.check(n >= 2, "annotation:addition-reports-beside-position-lookups", fmt.Sprintf("%d", n), "fewer than confirmed by reading: rule needs review", "-")
+}
+
+// ---------------------------------------------------------------------------------------------
+// R20.33 / R8.17 — a proofreading operation that is refused has not touched the store: in the
+// labelmap operations that draw a mutation id, no exit that returns a locally made message
+// (fmt.Errorf without an error argument: a verdict on the request, not a failure of the store) is
+// reachable after a call that can write to the store.
+
+func init() {
+	reg := func(id, prop string) {
+		register(ruleDef{ID: id, Prop: prop, Tier: "quick", Floor: 4,
+			Title: "a refused proofreading operation has written nothing: in every labelmap operation that draws a mutation id (merge, cleave, split, supervoxel split, renumber …), no exit that returns a locally made verdict on the request (fmt.Errorf without an error argument) is reachable after a call that can reach a storage write",
+			Fn:    ruleVerdictBeforeWrites})
+	}
+	reg("R20.33", "C20")
+	reg("R8.17", "C08")
+}
+
+func ruleVerdictBeforeWrites(r *Run) {
+	w := r.W
+	sinks := w.newSinks()
+	writes := w.newReach(func(c ssa.CallInstruction) bool { return sinks.isStorageWrite(c) }, func(g *ssa.Function) bool {
+		// bookkeeping that a refused request may leave behind is not entered: a burnt or raised label
+		// counter, a copy of an index as it was in the mutation cache, the blob kept for the message log
+		switch g.Name() {
+		case "newLabel", "newLabels", "NewLabel", "NewLabels", "updateMaxLabel", "addMutcache", "PutBlob":
+			return true
+		}
+		// logging and messaging are not the store
+		p := relPkg(pkgPathOf(g))
+		return !strings.HasPrefix(p, "datatype/labelmap") && !strings.HasPrefix(p, "datatype/common/downres")
+	})
+	n := 0
+	for _, f := range w.RepoFuncs {
+		if relPkg(pkgPathOf(f)) != "datatype/labelmap" || len(f.Blocks) == 0 || f.Parent() != nil || strings.HasSuffix(w.fposFile(f), "_test.go") {
+			continue
+		}
+		draws := false
+		for _, c := range calls(f) {
+			if methodNameOf(c) == "NewMutationID" {
+				draws = true
+			}
+		}
+		if !draws {
+			continue
+		}
+		isWrite := func(x ssa.Instruction) bool {
+			c, ok := x.(ssa.CallInstruction)
+			if !ok {
+				return false
+			}
+			if _, isGo := x.(*ssa.Go); isGo {
+				return false
+			}
+			if _, isDefer := x.(*ssa.Defer); isDefer {
+				return false
+			}
+			if callee := staticCallee(c); callee != nil && callee.Name() == "PutBlob" {
+				return false
+			}
+			if methodNameOf(c) == "PutBlob" {
+				return false
+			}
+			if sinks.isStorageWrite(c) {
+				return true
+			}
+			if callee := staticCallee(c); callee != nil && relPkg(pkgPathOf(callee)) == "datatype/labelmap" && writes.From(callee) {
+				switch callee.Name() {
+				case "newLabel", "newLabels", "NewLabel", "NewLabels", "updateMaxLabel", "addMutcache", "PutBlob":
+					return false // bookkeeping a refused request may leave behind: a burnt or raised label counter, a copy of the index as it was in the mutation cache
+				}
+				return true
+			}
+			return false
+		}
+		isVerdict := func(x ssa.Instruction) bool {
+			ret, ok := x.(*ssa.Return)
+			if !ok {
+				return false
+			}
+			for _, rv := range ret.Results {
+				if !isErrorType(rv.Type()) {
+					continue
+				}
+				for _, rt := range roots(rv, f) {
+					call, ok := rt.V.(*ssa.Call)
+					if !ok || rt.Fn != f {
+						continue
+					}
+					callee := call.Call.StaticCallee()
+					if callee == nil || callee.Name() != "Errorf" || callee.Pkg == nil || callee.Pkg.Pkg.Path() != "fmt" {
+						continue
+					}
+					// this Errorf must be the one returned here: it lies in a block that reaches the return without another store to the result
+					if !blockReaches(call.Block(), ret.Block()) && call.Block() != ret.Block() {
+						continue
+					}
+					wraps := false
+					for d := range dataDeps(call) {
+						if d != ssa.Value(call) && d.Type() != nil && isErrorType(d.Type()) {
+							wraps = true
+						}
+					}
+					if !wraps {
+						return true
+					}
+				}
+			}
+			return false
+		}
+		n++
+		var witness []ssa.Instruction
+		var first ssa.Instruction
+		for _, b := range f.Blocks {
+			for _, in := range b.Instrs {
+				if !isWrite(in) {
+					continue
+				}
+				if p := findPath(f, in, nil, isVerdict, allEdges); p != nil && witness == nil {
+					witness, first = p, in
+				}
+			}
+		}
+		pos := w.fpos(f)
+		if first != nil {
+			pos = w.pos(first.Pos())
+		}
+		r.check(witness == nil, fname(f)+":verdicts-before-writes", "no verdict on the request is reachable after a storage write",
+			"the operation can refuse the request with a message of its own after a call that writes to the store: the client is told the operation failed while voxels, indices or the mapping have already been changed", pos, w.renderPath(witness)...)
+	}
+	r.check(n >= 4, "labelmap:operations-with-mutation-id", fmt.Sprintf("%d", n), "fewer than confirmed by reading: rule needs review", "-")
 }
